@@ -55,9 +55,10 @@ def run(ctx):
     wl = words()
     tmp = tempfile.mkdtemp(prefix="c16-", dir=CACHE)
     accounts = []
-    pws = ["", "TREZOR", "pässwörd ①", "한국어"]
+    # passphrases are taken verbatim, outer white space included, whether given by flag or by environment variable
+    pws = ["", "TREZOR", "pässwörd ①", "한국어", "hunter2 ", " lead", "\ttab\t", "   ", "\u3000wide\u3000", "line\n", "\r\n"]
     sels = [("default",), ("index", 0), ("index", 1), ("index", 2), ("index", 5), ("index", B31 - 1)]
-    n_acc = 14 if not thorough else 80
+    n_acc = 22 if not thorough else 88
     for i in range(n_acc):
         L = list(LENS)[i % 5]
         ph = " ".join(wl[j] for j in pyref.bip39_indices(rbytes(rng, LENS[L])))
